@@ -1,6 +1,7 @@
 import SciVerif.Tie.ProcSem
 import SciVerif.Props.C04
 import SciVerif.Props.C08
+import SciVerif.Tie.Pins
 /-! Tie A obligations for C04: the port and task-creation code has the shape the channel and
 task-creation models assume. -/
 namespace SciVerif.Tie
@@ -54,7 +55,35 @@ theorem generated_round_shape :
 
 theorem generated_proc_sem_good_c04 : Proc.good procSem := by decide
 
+
+-- BEGIN PINS (written by bin/mkpins; do not edit by hand)
+/-- the Go functions this property's model and obligations were written against have exactly the
+pinned skeletons (SHA-256 prefix of the atom list) -/
+theorem pinned_skeletons_c04 :
+    pinsOk
+    [("Scipipe.BaseProcess_CloseOutPorts", "be86bddf379df111"),
+     ("Scipipe.BaseProcess_receiveOnInParamPorts", "80f48a9a3ce80c41"),
+     ("Scipipe.BaseProcess_receiveOnInPorts", "fc9972cf4f754181"),
+     ("Scipipe.FinalizePaths", "291fc0cefa37cea9"),
+     ("Scipipe.InParamPort_CloseConnection", "0b1304b246603bb9"),
+     ("Scipipe.InParamPort_Send", "4622aa49739ca34b"),
+     ("Scipipe.InPort_CloseConnection", "19d2a9417eaebec1"),
+     ("Scipipe.InPort_Send", "62cb51bf3ab53084"),
+     ("Scipipe.NewInParamPort", "987eb734aafc07fd"),
+     ("Scipipe.NewInPort", "7ed3bbccc81e8535"),
+     ("Scipipe.OutParamPort_Close", "601ec3b610e0f2df"),
+     ("Scipipe.OutParamPort_Send", "001f43b441bb5996"),
+     ("Scipipe.OutPort_Close", "82e44734c725a956"),
+     ("Scipipe.OutPort_Send", "06287c7bef096378"),
+     ("Scipipe.Process_Run", "05880ea16e590fb1"),
+     ("Scipipe.Process_createTasks", "8c856d9ef4492f5d"),
+     ("Scipipe.Task_Execute", "40fd1fec0c69deb2"),
+     ("Scipipe.Task_writeAuditLogs", "5ee6e36ed2566be6"),
+     ("Scipipe.taskQueue_NextTaskDone", "749f6263d8a0c13f")] = true := by decide
+-- END PINS
+
 end SciVerif.Tie
+#print axioms SciVerif.Tie.pinned_skeletons_c04
 #print axioms SciVerif.Tie.generated_send_to_all_remotes
 #print axioms SciVerif.Tie.generated_close_when_last
 #print axioms SciVerif.Tie.generated_round_shape
